@@ -96,12 +96,13 @@ pub struct Run {
     pub ticker: Option<Rng>,
     tick_left: u32,
     sleeps_left: u32,
+    migratable: Option<&'static str>,
     tick_world: bool,
     probe_world: bool,
 }
 impl Run {
     pub fn new() -> Self {
-        Run { tr: Trace::new(), world: None, ops: 0, ticker: None, tick_left: 0, sleeps_left: 0, tick_world: false, probe_world: false }
+        Run { tr: Trace::new(), world: None, ops: 0, ticker: None, tick_left: 0, sleeps_left: 0, migratable: None, tick_world: false, probe_world: false }
     }
     pub fn scenario(&mut self, cluster: &str, name: &str) {
         self.tr.lines.push(format!("scenario {cluster} {name}"));
@@ -112,6 +113,7 @@ impl Run {
         // entry in the test host (4096 ledgers), and far above that of a temporary entry (16)
         self.tick_left = 3000;
         self.sleeps_left = 2;
+        self.migratable = None;
         self.probe_world = matches!(cluster, "gw" | "op" | "tk" | "ex" | "its");
     }
     /// now and then: call (without authorisation) whatever the contract exports beyond what the model knows
@@ -164,12 +166,48 @@ impl Run {
         *self.tr.classes.entry("tick".to_string()).or_insert(0) += 1;
         self.tr.lines.push(format!("{line} => {obs} ## class=tick"));
     }
+    /// now and then the owner upgrades a constructed contract to its own code and runs the migration of the current tree: an
+    /// administrative step that must leave everything the models know exactly as it was
+    fn auto_migrate(&mut self, op: &str) {
+        let prefix = match self.migratable {
+            Some(p) => p,
+            None => return,
+        };
+        if op.starts_with("time") || op.starts_with("tick") || op.starts_with("probe_extra") || op.contains(".new") || op.contains("upgrade_migrate") {
+            return;
+        }
+        let go = match self.ticker.as_mut() {
+            Some(r) => r.below(120) == 0,
+            None => false,
+        };
+        if !go {
+            return;
+        }
+        let line = format!("{prefix}.upgrade_migrate @");
+        let toks: Vec<&str> = line.split(' ').collect();
+        let (obs, diag) = self.world.as_mut().expect("no scenario").exec(&toks);
+        self.ops += 1;
+        *self.tr.classes.entry("owner-upgrade-and-migrate".to_string()).or_insert(0) += 1;
+        self.tr.lines.push(format!("{line} => {obs} ## class=owner-upgrade-and-migrate e={diag}"));
+    }
     /// execute and record; returns the observation
     pub fn op(&mut self, op: &str, class: &str) -> String {
         self.auto_tick(op);
         self.auto_probe(op);
+        self.auto_migrate(op);
         let toks: Vec<&str> = op.split(' ').collect();
         let (obs, diag) = self.world.as_mut().expect("no scenario").exec(&toks);
+        for p in ["gw", "gs", "op", "its", "tk"] {
+            if op.starts_with(&format!("{p}.new ")) {
+                // the contract most recently constructed in this scenario (none after a failed construction)
+                let ok = obs.starts_with("ok");
+                if ok && (self.migratable.is_none() || p == "its" || self.migratable == Some(p)) {
+                    self.migratable = Some(p);
+                } else if !ok && self.migratable == Some(p) {
+                    self.migratable = None;
+                }
+            }
+        }
         self.ops += 1;
         *self.tr.classes.entry(class.to_string()).or_insert(0) += 1;
         if diag.is_empty() {
